@@ -4,7 +4,8 @@ from __future__ import annotations
 from hypothesis import strategies as st
 
 from hxv.gen import streams as gs
-from hxv.lib import Result, Violation, mk_candles, raises, snap, split_chunks, tf_seconds
+from hxv.lib import mk_candles as _mk
+from hxv.lib import TZOFFS, Result, Violation, mk_candles, raises, snap, split_chunks, tf_seconds
 from hxv.ref import resample as rr
 from hxv.runner import Shard
 
@@ -44,6 +45,7 @@ def cases(draw, max_n=40):
         "mode": draw(st.sampled_from(("manager", "manager", "indicator", "hexital"))),
         # a candle lifespan on top: what is retained is still contiguous and is the tail of the untrimmed series
         "lifespan": draw(st.sampled_from((None, None, None, 3 * tfs, 10 * tfs, 7 * tfs + 13, 3600))),
+        "tzoff": draw(st.sampled_from(TZOFFS)),  # timezone-aware timestamps (fixed offset)
     }
 
 
@@ -53,6 +55,7 @@ def drive(case, fill=True, batch=False):
     from hexital.indicators import HighLowAverage
 
     rows, tf = case["stream"], case["tf"]
+    mk_candles = lambda rr_: _mk(rr_, case.get("tzoff"))  # noqa: E731
     pre = len(rows) if batch else min(case.get("preload", 0), len(rows))
     rest = rows[pre:]
     mode = case.get("mode", "manager")
